@@ -220,6 +220,116 @@ def o_cmp(a, b):
     return (la > lb) - (la < lb)
 
 
+# ---------------------------------------------------------------- literal rules (independent reading of the book + grammar)
+
+import re as _re
+
+
+def py_escapes(s):
+    """escape rules of string_literals.md; None = BadEscapeSequence"""
+    out, pos = [], 0
+    for m in _re.finditer(r"\\(u\{.+?\}|.)", s):
+        out.append(s[pos:m.start()])
+        pos = m.end()
+        g = m.group(1)
+        if len(g) > 1:
+            h = g[2:-1]
+            if not _re.fullmatch(r"[a-fA-F0-9]{1,6}", h):
+                return None
+            v = int(h, 16)
+            if v > 0x10FFFF or 0xD800 <= v <= 0xDFFF:
+                return None
+            out.append(chr(v))
+        else:
+            tbl = {"n": "\n", "t": "\t", "r": "\r", "0": "\0", "\\": "\\", '"': '"', "'": "'"}
+            if g not in tbl:
+                return None
+            out.append(tbl[g])
+    out.append(s[pos:])
+    return "".join(out)
+
+
+def scan_literal(sp):
+    """where does the literal that starts at sp[0] end?  -> (kind, content, end) or None.
+    `#`*n quote … quote `#`*n; inside a non-raw literal a backslash takes the following backslash or quote with it."""
+    i = 0
+    raw = False
+    if sp[:1] == "r":
+        raw, i = True, 1
+    n = 0
+    while sp[i:i + 1] == "#":
+        n += 1
+        i += 1
+    q = sp[i:i + 1]
+    if q not in ("'", '"'):
+        return None
+    i += 1
+    start = i
+    close = q + "#" * n
+    while i < len(sp):
+        if sp.startswith(close, i):
+            return ("raw" if raw else "str", sp[start:i], i + len(close))
+        if not raw and sp[i] == "\\" and sp[i + 1:i + 2] in (q, "\\"):
+            i += 2
+        else:
+            i += 1
+    return None
+
+
+def o_literal(sp):
+    r = scan_literal(sp)
+    if r is None or r[2] != len(sp):
+        return "compile-err Syntax"
+    kind, content, _ = r
+    if kind == "raw":
+        return content
+    v = py_escapes(content)
+    return "compile-err BadEscapeSequence" if v is None else v
+
+
+LIT_ALPHA = ["a", "n", "u", "4", "1", "\\", "\\", '"', "'", "#", "{", "}", "é", "😀", " ", "\\n", "\\\\", "\\\"", "\\'", "\\u{41}", "\\u{1F600}", "\\q", "\\0", "\\t", "0", "\n"]
+
+
+def gen_literal(rng):
+    content = "".join(rng.choice(LIT_ALPHA) for _ in range(rng.choice([0, 1, 2, 3, 5, 8])))
+    n = rng.choice([0, 0, 0, 1, 2, 3])
+    q = rng.choice(["'", '"'])
+    n2 = n if rng.random() < 0.9 else rng.choice([0, 1, 2, 3])
+    return rng.choice(["", "", "r"]) + "#" * n + q + content + q + "#" * n2
+
+
+def gen_fstring(rng):
+    """(spelling, expected value)"""
+    q = rng.choice(["'", '"'])
+    n = rng.choice([0, 0, 1, 2])
+    sp, val = [], []
+    for _ in range(rng.choice([0, 1, 2, 3, 4])):
+        k = rng.random()
+        if k < 0.4:
+            t = "".join(rng.choice(["a", "b", " ", "é", "😀", "#", "{{", "}}", "\\n", "\\\\", "\\t", ":", "\\" + q]) for _ in range(rng.choice([1, 2, 4])))
+            sp.append(t)
+            val.append(py_escapes(t).replace("{{", "{").replace("}}", "}"))
+        elif k < 0.6:
+            v = rng.choice([0, 7, 42, 12345])
+            sp.append("{%d}" % v)
+            val.append(str(v))
+        elif k < 0.8:
+            v = rng.choice([0, 7, 42, 12345])
+            spec = rng.choice([">5", "<4", "^6", "05", "*^7", "", "3"])
+            sp.append("{%d:%s}" % (v, spec))
+            val.append(format(v, spec))
+        elif k < 0.9:
+            a, b = rng.choice([1, 2, 30]), rng.choice([4, 5])
+            sp.append("{%d+%d*2}" % (a, b))
+            val.append(str(a + b * 2))
+        else:
+            other = "'" if q == '"' else '"'
+            w = rng.choice(["s", "é", ""])
+            sp.append("{" + other + w + other + "}")
+            val.append(w)
+    return "f" + "#" * n + q + "".join(sp) + q + "#" * n, "".join(val)
+
+
 def to_model_show(v):
     """model answer for an FS-valued builtin -> python string / ERR / 'PANIC'"""
     if v.startswith("err "):
@@ -423,6 +533,24 @@ def run(chk):
         if ord(fill) > 127:
             want = ERR      # only ASCII fill characters are accepted (xformatter.rs: "invalid format spec")
         ladd("format", f"{S}.format({lit(fill + al + str(wd))})", want, inp=(s, fill, al, wd))
+
+    # ---- literal spellings: quotes, backslashes, braces, fences, raw and formatted strings
+    for _ in range(500 if quick else 15000):
+        sp = gen_literal(rng)
+        want = o_literal(sp)
+        ladd("literal", sp, want, inp=(sp,))
+    for sp, want in [("'it\\'s'", "it's"), ('f"a\\"b"', 'a"b'), ('"\\u{+41}"', "compile-err BadEscapeSequence"), ('"\\u{0000041}"', "compile-err BadEscapeSequence"),
+                     ('#"a"b"#', 'a"b'), ('r"a\\nb"', "a\\nb"), ('##"x"#"##', 'x"#'), ('f"{{}}"', "{}"), ('f"{1}}}"', "1}")]:
+        ladd("literal", sp, want, inp=(sp,))
+    for _ in range(250 if quick else 8000):
+        sp, want = gen_fstring(rng)
+        ladd("fstring", sp, want, inp=(sp,))
+    # witnesses of the repaired defects, replayed on every run
+    for expr, want in [('"abc"[5]', ERR), ('"abc"[3]', ERR), ('"a\\u{130}b".lower()[2]', "\u0307"), ('"\\u{e9}a".find("a")', ("some", 1)),
+                       ('"\\u{e9}a\\u{e9}".split("a").to_array()', ["é", "é"]), ('"\\u{e9}".substring(1)', ""), ('"\\u{e9}".ends_with("")', True),
+                       ('"abc".substring(4, 5)', ERR), ('"abc".find("c", 4)', ERR),
+                       ('format_replace("\\u{e9}%nz", (s: str)->{s + s})', "énnz")]:
+        ladd("witness", expr, want, inp=(expr,))
 
     dumps = eval_exprs([c[1] for c in lcases])
     mlines = [(i, c[2]) for i, c in enumerate(lcases) if c[2]]
